@@ -12,6 +12,7 @@ import Drpc.Driver.Metadata
 import Drpc.Driver.Http
 import Drpc.Driver.Compat
 import Drpc.Driver.Signal
+import Drpc.Driver.Request
 /-
   drpcmodel: line-protocol driver.  One request per line `cmd key=value …`, one answer per line.
   Every request is self-contained (no state is kept between lines).
@@ -23,7 +24,7 @@ def dispatch (line : String) : String :=
   match (line.splitOn " ").filter (· ≠ "") with
   | [] => "bad-op"
   | cmd :: args =>
-    let r := (Wire.handle cmd args) <|> (Reader.handle cmd args) <|> (Migrate.handle cmd args) <|> (Stream.handle cmd args) <|> (Manager.handle cmd args) <|> (ManagerSys.handle cmd args) <|> (Serve.handle cmd args) <|> (Pool.handle cmd args) <|> (Err.handle cmd args) <|> (Gen.handle cmd args) <|> (Metadata.handle cmd args) <|> (Http.handle cmd args) <|> (Compat.handle cmd args) <|> (Signal.handle cmd args)
+    let r := (Wire.handle cmd args) <|> (Reader.handle cmd args) <|> (Migrate.handle cmd args) <|> (Stream.handle cmd args) <|> (Manager.handle cmd args) <|> (ManagerSys.handle cmd args) <|> (Serve.handle cmd args) <|> (Pool.handle cmd args) <|> (Err.handle cmd args) <|> (Gen.handle cmd args) <|> (Metadata.handle cmd args) <|> (Http.handle cmd args) <|> (Compat.handle cmd args) <|> (Signal.handle cmd args) <|> (Request.handle cmd args)
     match r with
     | some s => s
     | none => "bad-op"
